@@ -1,6 +1,6 @@
 #!/usr/bin/env python3
 """One-off generator of data/fnv_names.json: identifier-shaped keys whose FNV-1
-hash (hashmap.c) is congruent to r modulo 2^16, for r = 0..15, sixteen names per
+hash (hashmap.c) is congruent to r modulo 2^16, for r = 0..15, 32 names per
 residue.  Equal residues collide at every power-of-two capacity <= 65536."""
 import json, sys
 M = (1 << 64) - 1
@@ -13,10 +13,10 @@ def fnv(s):
 if __name__ == "__main__":
     pool = {r: [] for r in range(16)}
     n = 0
-    while any(len(v) < 16 for v in pool.values()):
+    while any(len(v) < 32 for v in pool.values()):
         s = "K%x" % n
         r = fnv(s) & 0xffff
-        if r in pool and len(pool[r]) < 16:
+        if r in pool and len(pool[r]) < 32:
             pool[r].append(s)
         n += 1
     json.dump({str(k): v for k, v in pool.items()}, open(sys.argv[1], "w"), indent=0)
